@@ -1,6 +1,7 @@
 import Gzx.Model.DMHighLevel
 import Gzx.Gen.C02DM
 import Gzx.Gen.DMSymbols
+import Gzx.Model.DMDecodeChain
 namespace Gzx.Driver.C02
 open Gzx Gzx.DMHighLevel
 
@@ -23,6 +24,7 @@ def parseDim (s : String) : Option (Option (Nat × Nat)) :=
 /-- line-protocol handler of suite `c02` (arguments after the suite name)
     * `dec <hex codewords>`                       → `<hex text>|m=<symbology modifier>` or `ERR:kind`
     * `enc <hex text> <shape> <min WxH|-> <max>`  → `<hex codewords>` or `ERR:kind`
+    * `symdec <rows/of/bits>`                     → `<hex text>` or `ERR:kind`: Decoder.Decode (model `DMDec.decodeMatrix`)
     * `la <hex text> <pos> <mode>`                → mode (Lean `Float` look-ahead)
     * `lax <hex text> <pos> <mode>`               → mode (exact integer look-ahead `laExact`)
     * `laxr <hex text> <pos> <mode> <bumps>`      → mode (`laExactR` with the float roundings observed by the harness:
@@ -57,6 +59,15 @@ def handle : List String → String
     match parseHex? hex, pos.toNat?, mode.toNat? with
     | some msg, some p, some m => toString (laExact msg p m)
     | _, _, _ => "bad-op"
+  | ["symdec", grid] =>
+    match genTables with
+    | some T =>
+      let rows := (grid.splitOn "/").map parseBits
+      let g : DMDec.BitGrid := ⟨(rows.headD []).length, rows.length, (rows.flatMap id).toArray⟩
+      match DMDec.decodeMatrix T g with
+      | .ok t => showHex t
+      | .error e => "ERR:" ++ e.tag
+    | none => "ERR:gen-tables"
   | ["laxr", hex, pos, mode, bumps] =>
     match parseHex? hex, pos.toNat?, mode.toNat? with
     | some msg, some p, some m =>
